@@ -139,6 +139,12 @@ def denp(x):
         if set(x) == {'#expr'}:
             from qupulse.expressions import ExpressionScalar
             return ExpressionScalar(x['#expr'])
+        if set(x) == {'#sym'}:          # a sympy object (relation handed over as sympy.Ne(...), not as text)
+            from qupulse.utils.sympy import sympify
+            return sympify(x['#sym'])
+        if set(x) == {'#pc'}:
+            from qupulse.pulses.parameters import ParameterConstraint
+            return ParameterConstraint(x['#pc'])
         if set(x) == {'#range'}:
             return range(*x['#range'])
         if set(x) == {'#prange'}:
@@ -930,7 +936,7 @@ def gen_cases(rng, tier, n_store=None, n_doc=None):
         except Exception:   # noqa  invalid template / degenerate history: skip
             continue
     from props import c10_ord
-    r4 = c10_ord.round4_cases(tier) + c10_ord.round5_cases(tier)
+    r4 = c10_ord.round4_cases(tier) + c10_ord.round5_cases(tier) + c10_ord.round6_cases(tier)
     # the declared duration of the model against the code's, for the clean random forests and the order family
     n_dur = 45 if tier == 'quick' else 800
     durs = [{'kind': 'dur', 'nodes': c['nodes'], 'roots': c['roots'], 'flags': ['dur']}
